@@ -58,8 +58,6 @@ Record pairing_laws {G1 G2 GT : Type} (P : pairing_ops G1 G2 GT) : Prop := {
   laws2 : glaws (o2 P);
   lawsT : glaws (oT P);
   order_gt_1 : 1 < order P;
-  (* prime order: the only divisors of r are 1 and r (used for the strong non-degeneracy lemma) *)
-  order_prime : forall d, (d | order P) -> d = 1 \/ d = order P;
   ord1 : forall x, smul (o1 P) (order P) x = gzero (o1 P);
   ord2 : forall x, smul (o2 P) (order P) x = gzero (o2 P);
   gen1_generates : forall x, exists k, x = smul (o1 P) k (gen1 P);
@@ -69,6 +67,12 @@ Record pairing_laws {G1 G2 GT : Type} (P : pairing_ops G1 G2 GT) : Prop := {
   enc1_len : forall x, length (enc1 P x) = 48%nat;
   enc1_inj : forall x y, enc1 P x = enc1 P y -> x = y;
 }.
+
+(* prime order: the only divisors of r are 1 and r.  Kept apart from [pairing_laws]: no C15/C16
+   theorem needs it (cyclic of order r with a non-degenerate pairing is enough); it gives the strong
+   non-degeneracy lemma AlgebraProofs.key_nondegenerate. *)
+Definition prime_order {G1 G2 GT : Type} (P : pairing_ops G1 G2 GT) : Prop :=
+  forall d, (d | order P) -> d = 1 \/ d = order P.
 
 (* a signature as the verifiers receive it: a point of the prime-order subgroup (infinity
    included) or a curve point outside it (Signature::is_valid() = false).  SOff is absorbing
